@@ -22,16 +22,16 @@ T = {
     "C07": ("structural postconditions on constructed ConvexPolyhedron / sorted+merged Polyhedron vs. qhull-free facet oracle", "4.C07"),
     "C08": ("before/after monitor around every reflected property setter: read-back, least-squares similarity fit, refusal of bad targets", "4.C08"),
     "C09": ("relational monitor over recorded executions: queries on g(input) vs. g applied to queries on input", "4.C09"),
-    "C10": ("runtime postconditions on getters of Circle/Ellipse/Sphere/Ellipsoid vs. closed-form integrals and mpmath (Carlson R_G, E(m), quadrature)", "4.C10"),
-    "C11": ("runtime postconditions on spheropolytope and ConvexPolyhedron curvature getters vs. Steiner formulas evaluated on oracle A,P,V,S,M", "4.C11"),
-    "C12": ("runtime postcondition on compute_form_factor_amplitude vs. 400-digit mpmath simplex Fourier transforms; relational symmetry/phase/batch checks", "4.C12"),
+    "C10": ("runtime postconditions on getters of Circle/Ellipse/Sphere/Ellipsoid vs. closed-form integrals and mpmath (Carlson R_G, E(m), quadrature), on fresh objects and across set-then-read histories", "4.C10"),
+    "C11": ("runtime postconditions on spheropolytope and ConvexPolyhedron curvature getters vs. Steiner formulas evaluated on oracle A,P,V,S,M of the current core, on fresh objects and across read-change-read histories (own and core setters)", "4.C11"),
+    "C12": ("runtime postcondition on compute_form_factor_amplitude vs. 400-digit mpmath simplex Fourier transforms; relational symmetry/phase/batch checks; evaluate-resize/move-evaluate histories; integer wave vectors", "4.C12"),
     "C13": ("runtime postconditions on the ball properties vs. brute-force smallest enclosing ball, exact centroid and face/edge distances; existence by construction", "4.C13"),
-    "C14": ("runtime postcondition on distance_to_surface vs. ray/boundary intersection oracle", "4.C14"),
+    "C14": ("runtime postcondition on distance_to_surface vs. ray/boundary intersection oracle; float, integer, list and tuple angle arguments; argument-unchanged monitor", "4.C14"),
     "C15": ("constructor outcome monitor vs. exact validity classification; alias finder over the object graph", "4.C15"),
     "C16": ("before/after state monitor around every reflected query (alone, pairs), argument and handed-out array snapshots", "4.C16"),
-    "C17": ("postcondition on family get_shape/make_vertices vs. independent half-space intersection oracle", "4.C17"),
-    "C18": ("exhaustive enumeration of all tabulated entries under monitors vs. textbook reference table", "4.C18"),
-    "C19": ("round-trip monitors on gsd_shape_spec/from_gsd_type_shapes, repr/eval, to_json, to_hoomd", "4.C19"),
+    "C17": ("postcondition on family get_shape/make_vertices vs. independent half-space intersection oracle; get - caller mutates result - get again histories", "4.C17"),
+    "C18": ("exhaustive enumeration of all tabulated entries under monitors vs. textbook reference table; interleaved/resumed iteration histories; get - mutate - get again", "4.C18"),
+    "C19": ("round-trip monitors on gsd_shape_spec/from_gsd_type_shapes, repr/eval, to_json, to_hoomd, each taken up to three times from the same object", "4.C19"),
     "C20": ("independent strict parsers observing files written by coxeter.io / Polyhedron.save", "4.C20"),
 }
 
